@@ -104,6 +104,7 @@ func (s *Sched) newTask(g *Group, body func(), parent *Task) *Task {
 	}
 	t.vcSet(t.ID, 1)
 	t.prio = 1000 + s.rng.intn(1000)
+	g.NTasks++
 	s.tasks = append(s.tasks, t)
 	go s.taskMain(t)
 	return t
@@ -148,6 +149,10 @@ func (s *Sched) taskMain(t *Task) {
 		if r := recover(); r != nil {
 			t.Panic = r
 			t.PanicStack = debug.Stack()
+			if !t.Root && t.G.ChildPanic == nil {
+				t.G.ChildPanic = r
+				t.G.ChildStack = t.PanicStack
+			}
 		} else if !t.Finished {
 			t.Goexit = true
 		}
